@@ -19,7 +19,7 @@ RUN_LIMIT_CPU_S = 600     # one run enumerates hundreds of fault positions in th
 BUDGET = {'quick': 25, 'thorough': 300}
 BLOCK = 8
 STREAM_ORDER = ['ops', 'guards', 'faults', 'chart', 'cfg']
-RULE = (common.GEN + 'the monitored chart sends events (with delays) and notifies, in a third of the runs it carries contracts that are checked; listeners read every documented attribute of every meta-event; in a third of the runs the monitored interpreter is a subclass of Interpreter with its own constructor and a property statechart is bound with the default interpreter_klass; in half of the runs the property statecharts arm a far-away timeout on themselves (a pending delayed internal event of their own); listeners: a plain recording callable (attach), two recorders with value equality that compare equal when they are attached, a recording '
+RULE = (common.GEN + 'the monitored chart sends events (with delays; in a third of the runs also events without any parameter, so that two sent in one step compare equal) and notifies, in a third of the runs it carries contracts that are checked; listeners read every documented attribute of every meta-event; in a third of the runs the monitored interpreter is a subclass of Interpreter with its own constructor and a property statechart is bound with the default interpreter_klass; in half of the runs the property statecharts arm a far-away timeout on themselves (a pending delayed internal event of their own); listeners: a plain recording callable (attach), two recorders with value equality that compare equal when they are attached, a recording '
         'property statechart (bind_property_statechart, built through interpreter_klass so that it shares a recorder) and a tripwire property '
         'statechart that becomes final at its k-th meta-event. Run A (no tripwire): the stream both recorders saw must equal the stream derived '
         'from the returned micro steps, the property chart own clock must equal the monitored step time, and the macro steps must equal those '
@@ -225,6 +225,7 @@ def run(ch, tier):
     cs = ch.s('cfg')
     contracts = cs.flag(1, 3)
     cfg = swarm(cs, Cfg(sends=True, notify=True, delays=True, contracts=contracts), tier)
+    cfg.anon = cs.flag(1, 3)     # events without any distinguishing parameter: two of them sent in one step compare equal
     trip_first = cs.flag(1, 2)
     skew = cs.flag(1, 2)        # the monitored clock moves at every read: the property chart must still see the frozen step time
     mkclock = (lambda: SkewClock()) if skew else (lambda: SimClock())
@@ -300,7 +301,8 @@ def run(ch, tier):
         for x in got:
             d = dict(x[1])
             if x[0] == 'event sent':
-                emitted.append(d['event'][2])
+                if d['event'][2] is not None:
+                    emitted.append(d['event'][2])
             elif x[0] in ('na', 'nb'):
                 emitted.append(d.get('uid'))
         # per micro step the code of one block issues its sends/notifies in program order; blocks follow each other
